@@ -17,7 +17,7 @@ RULE = ('designs of strata S1, S1x, S2, S3, S4, S5, S6 (quick: fixed core + seed
         'preamble, MinimumTrials or a combinator changed it).')
 ASSUMPTIONS = ['reference arithmetic in vt/ref.py is the documented one (readings A5 where under-specified)']
 BUDGET_S = {'quick': 60, 'thorough': 300}
-STRATA = ['S1', 'S1p', 'S1x', 'S2', 'S2s', 'S3', 'S4', 'S5', 'S6']
+STRATA = ['S1', 'S1n', 'S1p', 'S1x', 'S2', 'S2s', 'S3', 'S4', 'S5', 'S6']
 QUICK_CAPS = dsw.QUICK_CAPS_MID
 GENS = ['sat', 'rnd', 'cms', 'uni', 'iter', 'uniform', 'sm']
 
